@@ -12,6 +12,7 @@ import (
 	"github.com/bluenviron/gortsplib/v5"
 	"github.com/bluenviron/gortsplib/v5/pkg/base"
 	"github.com/bluenviron/gortsplib/v5/pkg/description"
+	"github.com/bluenviron/gortsplib/v5/pkg/format"
 )
 
 // URLCase is one C20 case against the library's own server.
@@ -24,6 +25,8 @@ type URLCase struct {
 	Medias    int    `json:"medias"`
 	Order     []int  `json:"order"` // SETUP order
 	UDP       bool   `json:"udp"`
+	Back      string `json:"back,omitempty"`     // play: a back-channel media among the stream's medias: "", first, middle, last
+	ReqBack   bool   `json:"req_back,omitempty"` // the client asks for back channels
 }
 
 // tapConn records everything written to it.
@@ -50,9 +53,41 @@ func RunURL(c URLCase) error {
 	for i := 0; i < c.Medias; i++ {
 		formats = append(formats, 1)
 	}
+	backAt := -1 // index of a back-channel media among the stream's medias (play only)
+	if c.Dir == "play" {
+		switch c.Back {
+		case "first":
+			backAt = 0
+		case "middle":
+			backAt = (c.Medias + 1) / 2
+		case "last":
+			backAt = c.Medias
+		}
+	}
+	// srvIdx / cliIdx: where the k-th ordinary media sits in the server's description and in the client's
+	srvIdx := func(mi int) int {
+		if backAt >= 0 && mi >= backAt {
+			return mi + 1
+		}
+		return mi
+	}
+	cliIdx := func(mi int) int {
+		if c.ReqBack {
+			return srvIdx(mi)
+		}
+		return mi
+	}
 	cfg := WorldCfg{UDP: c.UDP, IP: ip}
 	if c.Dir == "play" {
 		cfg.Desc = SimpleDesc(formats)
+		if backAt >= 0 {
+			// a back channel among the medias: readers that did not ask for back channels do not see it, and the
+			// numbering of what they see must still lead back to the right medias
+			bm := &description.Media{Type: description.MediaTypeAudio, IsBackChannel: true, Formats: []format.Format{&format.G711{PayloadTyp: 8, MULaw: false, SampleRate: 8000, ChannelCount: 1}}}
+			ms := append([]*description.Media{}, cfg.Desc.Medias[:backAt]...)
+			ms = append(ms, bm)
+			cfg.Desc.Medias = append(ms, cfg.Desc.Medias[backAt:]...)
+		}
 	}
 	w, err := StartWorld(cfg)
 	if err != nil {
@@ -87,6 +122,7 @@ func RunURL(c URLCase) error {
 		proto = gortsplib.ProtocolUDP
 	}
 	cl := NewClient(u.Scheme, u.Host, &proto)
+	cl.RequestBackChannels = c.ReqBack
 	d := &net.Dialer{Timeout: 15 * time.Second}
 	cl.DialContext = func(ctx context.Context, network, address string) (net.Conn, error) {
 		nc, err := d.DialContext(ctx, network, address)
@@ -108,12 +144,16 @@ func RunURL(c URLCase) error {
 		if err != nil {
 			return fmt.Errorf("DESCRIBE %s failed: %v", raw, err)
 		}
-		if len(sd.Medias) != c.Medias {
-			return fmt.Errorf("described %d medias, stream has %d", len(sd.Medias), c.Medias)
+		wantMedias := c.Medias
+		if backAt >= 0 && c.ReqBack {
+			wantMedias++
+		}
+		if len(sd.Medias) != wantMedias {
+			return fmt.Errorf("described %d medias, %d expected (stream has %d ordinary medias, back channel %q, requested by the client: %v)", len(sd.Medias), wantMedias, c.Medias, c.Back, c.ReqBack)
 		}
 		clientDesc = sd
 		for k, mi := range c.Order {
-			if _, err := cl.Setup(sd.BaseURL, sd.Medias[mi], 0, 0); err != nil {
+			if _, err := cl.Setup(sd.BaseURL, sd.Medias[cliIdx(mi)], 0, 0); err != nil {
 				return fmt.Errorf("SETUP #%d (media %d) of %s failed: %v", k, mi, raw, err)
 			}
 		}
@@ -167,6 +207,9 @@ func RunURL(c URLCase) error {
 			ref = ad.Medias
 		}
 		for k, mi := range c.Order {
+			if c.Dir == "play" {
+				mi = srvIdx(mi)
+			}
 			if mi >= len(ref) || sessMedias[k] != ref[mi] {
 				idx := -1
 				for j, m := range ref {
